@@ -300,7 +300,13 @@ func (r *Run) opListVersions(op *Op) {
 	if x == nil {
 		r.fail("versions.list", "ListObjectVersions fails", "200", resp.String()+" "+resp.Msg)
 	}
-	if op.Max > 0 || km != "" {
+	paged := op.Max > 0 || km != ""
+	if !paged {
+		// no max-keys means the protocol's page size
+		w, pf := expectedVersions(b, op.Prefix, op.Delim)
+		paged = len(w)+len(pf) >= protocolPage // a full page may report more to come (C13 asks that the rest be retrievable, not that the flag be exact)
+	}
+	if paged {
 		r.checkVersionsPage(op, x, b, km, vm)
 		return
 	}
@@ -316,8 +322,8 @@ func (r *Run) opListVersions(op *Op) {
 // than max-keys entries, each a stored entry, no duplicates, keys ascending
 // and not before the key marker, and truncated pages carry both markers.
 func (r *Run) checkVersionsPage(op *Op, x *xVersionsResult, b *model.Bucket, km, vm string) {
-	if op.Max > 0 && len(x.Entries) > op.Max {
-		r.fail("versions.walk", "a version-listing page holds more entries than max-keys", fmt.Sprintf("<= %d", op.Max), fmt.Sprint(len(x.Entries)))
+	if len(x.Entries) > pageSize(op) {
+		r.fail("versions.walk", "a version-listing page holds more entries than max-keys", fmt.Sprintf("<= %d", pageSize(op)), fmt.Sprint(len(x.Entries)))
 	}
 	want, _ := expectedVersions(b, op.Prefix, op.Delim)
 	have := map[string]bool{}
@@ -415,8 +421,8 @@ func (r *Run) opWalkVersions(op *Op) {
 		if x == nil {
 			r.fail("versions.walk", "a version-listing page request made with the markers the server returned fails", "200", resp.String()+" "+resp.Msg)
 		}
-		if op.Max > 0 && len(x.Entries) > op.Max {
-			r.fail("versions.walk", "a version-listing page holds more entries than max-keys", fmt.Sprintf("<= %d", op.Max), fmt.Sprint(len(x.Entries)))
+		if len(x.Entries) > pageSize(op) {
+			r.fail("versions.walk", "a version-listing page holds more entries than max-keys", fmt.Sprintf("<= %d", pageSize(op)), fmt.Sprint(len(x.Entries)))
 		}
 		all = append(all, x.Entries...)
 		for _, p := range x.CommonPrefixes {
